@@ -162,29 +162,43 @@ same_tree(const struct tree *t, const struct sx_node *node)
 static void
 parse_expect_tree(const char *text, size_t n, size_t exprlen, const struct tree *t, const char *key)
 {
-    for (int variant = 0; variant < 2; variant++) {
+    static const char *const vname[] = { "string", "stringn", "parse-at-offset" };
+    static unsigned rot;
+    for (int variant = 0; variant < 3; variant++) {
         char *in;
         size_t before = __sanitizer_get_current_allocated_bytes();
         struct sx_parse_result res;
+        size_t off = 0;
         if (variant == 0) {
             in = vh_arena(n + 1);
             memcpy(in, text, n);
             in[n] = 0;
             res = sx_parse_string(in);
-        } else {
+        } else if (variant == 1) {
             in = vh_arena(n);
             memcpy(in, text, n);
             res = sx_parse_stringn(in, n);
+        } else {
+            /* the way several expressions are read from one text: the start offset is where the previous
+             * expression (or whatever else was in front) ended, positions count from the start of the text */
+            static const char *const front[] = { "(zz 9)", "q ", ")))", "(", "#x1f ", "(a (b) c)\n", "5" };
+            const char *f = front[rot++ % 7];
+            off = strlen(f);
+            in = vh_arena(off + n);
+            memcpy(in, f, off);
+            memcpy(in + off, text, n);
+            res = sx_parse(in, off + n, off);
+            VH_COUNT("expression parsed from a start offset behind other text");
         }
         if (res.status != SXS_SUCCESS || res.node == NULL) {
-            vh_fail("render-rejected", key, "variant=%s text='%.*s': status=%d node=%p", variant ? "stringn" : "string",
+            vh_fail("render-rejected", key, "variant=%s text='%.*s': status=%d node=%p", vname[variant],
                     (int)n, text, res.status, (void *)res.node);
         } else {
             if (!same_tree(t, res.node))
-                vh_fail("tree-differs", key, "variant=%s text='%.*s'", variant ? "stringn" : "string", (int)n, text);
-            if (res.position != exprlen)
-                vh_fail("position", key, "variant=%s text='%.*s': position %zu expected %zu",
-                        variant ? "stringn" : "string", (int)n, text, res.position, exprlen);
+                vh_fail("tree-differs", key, "variant=%s text='%.*s'", vname[variant], (int)n, text);
+            if (res.position != off + exprlen)
+                vh_fail("position", key, "variant=%s text='%.*s' (start offset %zu): position %zu expected %zu",
+                        vname[variant], (int)n, text, off, res.position, off + exprlen);
         }
         sx_destroy(&res.node);
         size_t after = __sanitizer_get_current_allocated_bytes();
@@ -661,4 +675,5 @@ harness_run(void)
                                  "special: long symbols", "special: deep nesting and long lists" };
     for (size_t i = 0; i < sizeof req / sizeof req[0]; i++)
         vh_require(req[i]);
+    vh_require("expression parsed from a start offset behind other text");
 }
